@@ -13,12 +13,26 @@ import (
 )
 
 // icOptions turns an interceptor set into mux options (same Go functions on both sides).
+func init() {
+	// rule texts the decoy siblings of a hostile container claim as accept-everything interceptors
+	seen := map[string]bool{}
+	for _, t := range gen.Tokens {
+		if t.Rule != "" && !seen[t.Rule] {
+			seen[t.Rule] = true
+			mon.DecoyRules = append(mon.DecoyRules, t.Rule)
+		}
+	}
+}
+
 func icOptions(s gen.ICSet) []mux.Option {
 	names := make([]string, 0, len(s.Funcs))
 	for n := range s.Funcs {
 		names = append(names, n)
 	}
 	sort.Strings(names)
+	if s.Name == "builtin" {
+		return []mux.Option{mux.WithDigitInterceptor("digit"), mux.WithWordInterceptor("word"), mux.WithAnyInterceptor("any")}
+	}
 	var o []mux.Option
 	for _, n := range names {
 		o = append(o, mux.WithInterceptor(mux.InterceptorFunc(s.Funcs[n]), n))
